@@ -214,44 +214,46 @@ IsReadErr(m) == DecodeErr(m) \/ Unknown(m)
 
 NgFail == negRes' = "err" /\ Goto("ng", "done")
 
-\* writeMessage during negotiation: silently skipped when disconnecting
+\* writeMessage during negotiation: the disconnect flag is tested first (the
+\* message is silently skipped when it is set), the write itself happens later
+\* and fails when the connection has been closed in between.
+NgWriteChk(l, nxt) ==
+  /\ pc["ng"] = l
+  /\ Goto("ng", IF disc # 0 THEN nxt ELSE l \o "2")
+  /\ UNCHANGED <<scn, connV, flagV, hsV, chanV, locV, histV>>
 NgWriteOk(l, k, nxt) ==   \* observable wire(k)
-  /\ pc["ng"] = l /\ disc = 0 /\ ~remoteClosed
+  /\ pc["ng"] = l \o "2" /\ ~connClosed /\ ~remoteClosed
   /\ wireSeq' = Append(wireSeq, Item(k, 0))
   /\ Goto("ng", nxt)
   /\ UNCHANGED <<scn, connV, flagV, hsV, chanV, locV, doneCnt, safe, putSeq, rjDone, shEarly, latePut, cbBad>>
-
-NgWriteSkip(l, nxt) ==
-  /\ pc["ng"] = l /\ disc # 0
-  /\ Goto("ng", nxt)
-  /\ UNCHANGED <<scn, connV, flagV, hsV, chanV, locV, histV>>
-
 NgWriteErr(l) ==
-  /\ pc["ng"] = l /\ disc = 0 /\ remoteClosed
+  /\ pc["ng"] = l \o "2" /\ (connClosed \/ remoteClosed)
   /\ NgFail
   /\ UNCHANGED <<scn, connV, flagV, versionKnown, verAck, nego, started, chanV, locV, histV>>
 
 AfterWver == IF scn.dir = "in" THEN "wsa" ELSE "rver"
 AfterRver == IF scn.dir = "in" THEN "wver" ELSE "wsa"
 
-NgWver     == NgWriteOk("wver", "version", AfterWver) \/ NgWriteSkip("wver", AfterWver) \/ NgWriteErr("wver")
-
 NgWsaNone ==              \* negotiated version below 70016: no sendaddrv2
   /\ pc["ng"] = "wsa" /\ nego < AddrV2PV
   /\ Goto("ng", "wva")
   /\ UNCHANGED <<scn, connV, flagV, hsV, chanV, locV, histV>>
-NgWsa      == \/ (nego >= AddrV2PV /\ (NgWriteOk("wsa", "sendaddrv2", "wva") \/ NgWriteSkip("wsa", "wva") \/ NgWriteErr("wsa")))
-              \/ NgWsaNone
-NgWva      == NgWriteOk("wva", "verack", "rloop") \/ NgWriteSkip("wva", "rloop") \/ NgWriteErr("wva")
 
-\* the reject written when negotiation refuses the remote ("wrj"), then fail
+\* the reject written when negotiation refuses the remote ("wrj"), then fail;
+\* reject does not encode below 70002
+NgWrjChk ==
+  /\ pc["ng"] = "wrj"
+  /\ IF disc # 0 \/ nego < RejectPV
+       THEN NgFail /\ UNCHANGED <<versionKnown, verAck, nego, started>>
+       ELSE Goto("ng", "wrj2") /\ UNCHANGED hsV
+  /\ UNCHANGED <<scn, connV, flagV, chanV, locV, histV>>
 NgWrjOk ==                \* observable wire(reject)
-  /\ pc["ng"] = "wrj" /\ disc = 0 /\ ~remoteClosed /\ nego >= RejectPV
+  /\ pc["ng"] = "wrj2" /\ ~connClosed /\ ~remoteClosed
   /\ wireSeq' = Append(wireSeq, Item("reject", 0))
   /\ NgFail
   /\ UNCHANGED <<scn, connV, flagV, versionKnown, verAck, nego, started, chanV, locV, doneCnt, safe, putSeq, rjDone, shEarly, latePut, cbBad>>
-NgWrjNo ==
-  /\ pc["ng"] = "wrj" /\ (disc # 0 \/ remoteClosed \/ nego < RejectPV)   \* reject does not encode below 70002
+NgWrjErr ==
+  /\ pc["ng"] = "wrj2" /\ (connClosed \/ remoteClosed)
   /\ NgFail
   /\ UNCHANGED <<scn, connV, flagV, versionKnown, verAck, nego, started, chanV, locV, histV>>
 
@@ -309,10 +311,10 @@ NgPloopFail ==            \* anything else: invalid handshake / read error
   /\ NgFail
   /\ UNCHANGED <<scn, connV, flagV, versionKnown, verAck, nego, started, chanV, locV, histV>>
 
-NgInternal == NgWriteSkip("wver", AfterWver) \/ NgWriteErr("wver")
-              \/ (nego >= AddrV2PV /\ (NgWriteSkip("wsa", "wva") \/ NgWriteErr("wsa"))) \/ NgWsaNone
-              \/ NgWriteSkip("wva", "rloop") \/ NgWriteErr("wva")
-              \/ NgWrjNo \/ NgReadFail \/ NgPverErr \/ NgPverNotVer \/ NgPloopSkip \/ NgPloopFail
+NgInternal == NgWriteChk("wver", AfterWver) \/ NgWriteErr("wver")
+              \/ (nego >= AddrV2PV /\ NgWriteChk("wsa", "wva")) \/ NgWriteErr("wsa") \/ NgWsaNone
+              \/ NgWriteChk("wva", "rloop") \/ NgWriteErr("wva")
+              \/ NgWrjChk \/ NgWrjErr \/ NgReadFail \/ NgPverErr \/ NgPverNotVer \/ NgPloopSkip \/ NgPloopFail
 
 ---------------------------------------------------------------------------
 (* Peer.start *)
@@ -549,20 +551,19 @@ OhSc ==                   \* p.stallControl <- sccSendMessage
   /\ pc["oh"] = "sc" /\ ScSend
   /\ Goto("oh", "wr")
   /\ UNCHANGED <<scn, connV, flagV, hsV, oq, sq, sdq, invq, locV, histV>>
+OhWriteChk ==             \* writeMessage: returns nil without writing when disconnecting
+  /\ pc["oh"] = "wr"
+  /\ IF disc # 0 THEN Signal(ohMsg) /\ Goto("oh", "sd")
+                 ELSE Goto("oh", "wr2") /\ UNCHANGED <<doneCnt, rjDone>>
+  /\ UNCHANGED <<scn, connV, flagV, hsV, chanV, locV, safe, putSeq, wireSeq, shEarly, latePut, cbBad>>
 OhWriteOk ==              \* observable wire(item); done signal follows
-  /\ pc["oh"] = "wr" /\ disc = 0 /\ ~remoteClosed
+  /\ pc["oh"] = "wr2" /\ ~connClosed /\ ~remoteClosed
   /\ wireSeq' = Append(wireSeq, ohMsg)
   /\ Signal(ohMsg)
   /\ Goto("oh", "sd")
   /\ UNCHANGED <<scn, connV, flagV, hsV, chanV, locV, safe, putSeq, shEarly, latePut, cbBad>>
-OhWriteSkip ==            \* writeMessage returns nil without writing when disconnecting
-  /\ pc["oh"] = "wr" /\ disc # 0
-  /\ Signal(ohMsg)
-  /\ Goto("oh", "sd")
-  /\ UNCHANGED <<scn, connV, flagV, hsV, chanV, locV, safe, putSeq, wireSeq, shEarly, latePut, cbBad>>
 OhWriteErr ==             \* write error: Disconnect(), done signal, continue
-  /\ pc["oh"] = "wr"
-  /\ (disc = 0 /\ remoteClosed) \/ (disc # 0 /\ connClosed)
+  /\ pc["oh"] = "wr2" /\ (connClosed \/ remoteClosed)
   /\ Signal(ohMsg)
   /\ Goto("oh", "d1")
   /\ UNCHANGED <<scn, connV, flagV, hsV, chanV, locV, safe, putSeq, wireSeq, shEarly, latePut, cbBad>>
@@ -587,7 +588,7 @@ OhDrain ==
   /\ UNCHANGED <<scn, connV, disc, quit, inQuit, queueQuit, hsV, oq, sdq, sc, invq, locV,
                  safe, putSeq, wireSeq, shEarly, latePut, cbBad>>
 
-OhInternal == OhTake \/ OhSc \/ OhWriteSkip \/ OhWriteErr \/ OhSendDone \/ OhQuit \/ OhWaitQueue \/ OhDrain
+OhInternal == OhTake \/ OhSc \/ OhWriteChk \/ OhWriteErr \/ OhSendDone \/ OhQuit \/ OhWaitQueue \/ OhDrain
               \/ DiscFlag("oh") \/ DiscQuit("oh")
 
 ---------------------------------------------------------------------------
@@ -762,7 +763,7 @@ WireMsgs == SelectSeq(wireSeq, LAMBDA it : it.k = "msg")
 WireIds  == [i \in 1..Len(WireMsgs) |-> WireMsgs[i].id]
 FIFO     == IsSubSeq(WireIds, putSeq)
 \* while not disconnecting nothing is skipped: the wire shows a prefix of the queue order
-FIFOPrefix == disc = 0 => \A i \in 1..Len(WireIds) : WireIds[i] = putSeq[i]
+FIFOPrefix == disc = 0 /\ ~remoteClosed => \A i \in 1..Len(WireIds) : WireIds[i] = putSeq[i]
 
 \* every send whose QueueMessage returned before the disconnect flag was set
 \* is signalled once all goroutines of the peer are gone
